@@ -39,6 +39,8 @@ from unified_planning.model.effect import Effect, EffectKind, SimulatedEffect
 from unified_planning.model.fnode import FNode
 from unified_planning.model.metrics import PlanQualityMetric, MinimizeActionCosts
 from unified_planning.model.state import UPState
+from unified_planning.model.fluent import get_all_fluent_exp
+from unified_planning.model.types import _RealType
 from unified_planning.model.timing import TimeInterval, TimepointKind, Timing
 from unified_planning.model import (
     AbstractProblem,
@@ -615,10 +617,26 @@ class TimeTriggeredPlanValidator(engines.engine.Engine, mixins.PlanValidatorMixi
                 )
                 next_id += 1
 
-        for invariant in problem.state_invariants:
+        # State invariants and bounded numeric types must hold in every state of the
+        # trace, including the one produced by the last happening: the interval has no
+        # right end (an interval never yields the state produced at its right end).
+        invariants = list(problem.state_invariants)
+        for f in problem.fluents:
+            f_type = f.type
+            if f_type.is_int_type() or f_type.is_real_type():
+                lower_bound = cast(_RealType, f_type).lower_bound
+                upper_bound = cast(_RealType, f_type).upper_bound
+                if lower_bound is None and upper_bound is None:
+                    continue
+                for f_e in get_all_fluent_exp(problem, f):
+                    if lower_bound is not None:
+                        invariants.append(em.LE(lower_bound, f_e))
+                    if upper_bound is not None:
+                        invariants.append(em.LE(f_e, upper_bound))
+        for invariant in invariants:
             durative_conditions.append(
                 (
-                    (Fraction(0), plan_duration, False),
+                    (Fraction(0), None, False),
                     next_id,
                     invariant,
                     None,
